@@ -1,6 +1,9 @@
 import Infretis.Lemmas.RepexC04C05
 import Infretis.Lemmas.RepexC04Crash
 import Infretis.Lemmas.RepexC04Resume
+import Infretis.Lemmas.RepexC04RHist
+import Infretis.Lemmas.RepexC04Finish
+import Infretis.Lemmas.RepexC04Np
 /-!
 # C04 — fractional weights are conserved and accounted for exactly once
 
@@ -1194,5 +1197,301 @@ example : Reachable true exZr ∧ exZr.y.s.cstep = 3 ∧ exZr.cnt = [3, 3, 3, 0]
       = some ([4, 4, 4] : List Rat) :=
   ⟨exReachZr, by decide +kernel, by decide +kernel, by decide +kernel, histOk_of_B _ _ (by decide +kernel),
    by decide +kernel, by decide +kernel, by decide +kernel, by decide +kernel, by decide +kernel⟩
+
+/-! ## 15. A restart with jobs in flight (several workers, stop in mid-run)
+
+With `W ≥ 2` workers the restart file written by a completed step records the `W − 1` jobs of the other workers
+(`[current.locked]`), and the restarted run re-issues them (`pick_lock`, `locked0 ≠ []`) before it draws new
+ones.  §6/§13/§14 ask for a restart file without such records.  Here the hypothesis is dropped, on the model's
+row list (not on the file lines) and ONE in-flight restart deep: the state rebuilt from the image of ANY state
+reached from a fresh start (also through quiescent restarts: any `Reach4` state with an exact `locked` record)
+satisfies C03's restart invariant `InitR`, C05's family invariant and the table invariant, has the column totals
+it had, and every history from it (outcomes in the weight family) conserves.  Not re-established for the states of
+the continued run: the disk invariants of §14, "written once" and C06's `Tidy` (their proofs go through `Init`);
+so a SECOND in-flight restart, and the statement on the file lines, stay with the tie.
+
+Full statement still open (`files_law_reachable` without `hq : im.locked = []` in `Reachable.restart`):
+  for every `z` obtained from a fresh start on a fresh disk by scheduler events, stops anywhere inside
+  `treat_output`'s two disk effects and restarts from whatever restart file is found (any `[current.locked]`,
+  any worker count), in every ensemble column `lineTotal z.d.lines c + colTotal z.y.s.frac c = z.cnt[c]`, the
+  restart file (if any) has the sampler's step counter and `diskTotal z.d.lines im c = z.cnt[c]`, every path has at
+  most one row and none of an active path.  What is missing is `Good` (= `Reach4` + `DiskInvG`) for the restored
+  state when `locked0 ≠ []`: `HInv`/`RInv`/`Tidy`/`SupInv` re-proved over `InvR` instead of `Inv`. -/
+
+/-- **The state rebuilt from a restart image with jobs in flight is a start state again.**  `y1` any state with the
+    invariants of §13 whose `locked` record lists exactly the jobs in flight (every state reached from a fresh
+    start: `reach_recInv`; the mid-state of a completed step, whose image is what `write_toml` stores:
+    `mid_reach4`, `mid_recInv`).  Its image restored with any worker count / step target / engine table and the
+    weights on record: C03's `InitR` (all slots idle, the recorded jobs reserved for re-issue), C05's `Inv5`, the
+    table invariant, nothing in flight, the column totals of `y1`'s table, an empty model row list. -/
+theorem restart_inflight_is_start_state (y1 : Sys) (hr : Reach4 y1) (hrec : RecInv y1)
+    (workers tsteps : Nat) (occ : List (List Int)) (ensEng : List (List Nat)) (s2 : St)
+    (hrs : restore (persist y1.s) y1.s.n workers tsteps occ ensEng
+      (fun pn => (y1.s.wts.lookup pn).getD []) = .ok s2) :
+    InitR ⟨s2, []⟩ ∧ Inv5 ⟨s2, []⟩ ∧ FracWF s2 ∧ JInv ⟨s2, []⟩ ∧
+      (∀ c, colTotal s2.frac c = colTotal y1.s.frac c) ∧ s2.rows = [] ∧ s2.n = y1.s.n ∧ s2.workers = workers :=
+  restore_inflight hr hrec hrs
+
+/-- **Conservation from a restored state with recorded jobs**: any history (re-issue of the recorded jobs, new
+    picks, completions in any order; outcomes in the weight family) from a state with C03's `InvR`, C05's `Inv5`
+    and the table invariant: rows + table grow, per column, by the idle recordings; the invariants hold at the
+    end; with one worker the step counter grows by the same number. -/
+theorem conservation_from_inflight (y y' : Sys) (evs : List Ev) (h5 : Inv5 y) (fw : FracWF y.s) (hj : JInv y)
+    (hh : HistOk y evs) (hrun : run y evs = .ok y') :
+    InvR y' ∧ Inv5 y' ∧ FracWF y'.s ∧ JInv y' ∧ y'.s.n = y.s.n ∧
+    (∀ c, rowsTotal y'.s.rows c + colTotal y'.s.frac c
+      = rowsTotal y.s.rows c + colTotal y.s.frac c + (idleSteps y evs c : Rat)) ∧
+    (y.s.workers = 1 → ∀ c, c < y.s.n - 1 → y'.s.cstep = y.s.cstep + idleSteps y evs c) := by
+  have hm := matchableAlong_of_histOk evs y h5 hh
+  obtain ⟨a1, a2, a3, a4, a5, _, a7⟩ := run_totalR evs h5.inv fw hj hrun hm
+  exact ⟨a1, (run_preserves5 evs h5 hh hrun).1, a2, a3, a5, fun c => a4 c, a7⟩
+
+/-- **Conservation across a restart with jobs in flight, no hypothesis on the `locked` record**
+    (`restart_conservation_reachable` without `hlk`): fresh start, any history `evs1` to ANY state `y1` (any number
+    of workers, jobs in flight), its image restored with any worker count / step target, any history `evs2` of the
+    restarted run.  Rows of the first run + rows of the second run + live fractions = idle recordings of both. -/
+theorem restart_inflight_conservation (y0 y1 y3 : Sys) (evs1 evs2 : List Ev) (h0 : DiskStart y0)
+    (hl0 : y0.s.locked = []) (hh1 : HistOk y0 evs1) (hr1 : run y0 evs1 = .ok y1)
+    (workers tsteps : Nat) (occ : List (List Int)) (ensEng : List (List Nat)) (s2 : St)
+    (hrs : restore (persist y1.s) y1.s.n workers tsteps occ ensEng
+      (fun pn => (y1.s.wts.lookup pn).getD []) = .ok s2)
+    (hh2 : HistOk ⟨s2, []⟩ evs2) (hr2 : run ⟨s2, []⟩ evs2 = .ok y3) (c : Nat) :
+    rowsTotal y1.s.rows c + (rowsTotal y3.s.rows c + colTotal y3.s.frac c)
+      = (idleSteps y0 evs1 c : Rat) + (idleSteps ⟨s2, []⟩ evs2 c : Rat) := by
+  have r1 := run_reach4 evs1 h0.reach4 hh1 hr1
+  have hrec := reach_recInv h0.ri.fi.init hl0 hr1
+  obtain ⟨_, b5, bfw, bj, bcol, brows, _, _⟩ :=
+    restart_inflight_is_start_state y1 r1 hrec workers tsteps occ ensEng s2 hrs
+  obtain ⟨_, _, _, _, _, d, _⟩ := conservation_from_inflight ⟨s2, []⟩ y3 evs2 b5 bfw bj hh2 hr2
+  have e1 := conservation_reachable y0 y1 evs1 h0.ri.fi h0.i5 hh1 hr1 c
+  have e2 := d c
+  simp only [brows, rowsTotal_nil, zero_add, bcol c] at e2
+  rw [e2]
+  linarith
+
+/-- **The same for the restart file as it is on disk**: the image `write_toml` stores at the end of a completed
+    step is the one of the mid-state (before the freed worker's next `prep_md_items`).  `y` reached from a fresh
+    start, one more completed step (any job `k`, any status, outcome in the family); `sM` = the state
+    `treat_output` leaves.  Its image (`persistD`: the fraction section in the order written) restored with any
+    worker count — the `locked` record holds the other workers' jobs — and any history of the restarted run:
+    rows up to and including this step + rows of the restarted run + live fractions = idle recordings of the
+    history + this step's + the restarted run's. -/
+theorem midstep_restart_inflight_conservation (y0 y y' y3 : Sys) (evs evs2 : List Ev) (h0 : DiskStart y0)
+    (hl0 : y0.s.locked = []) (hh : HistOk y0 evs) (hr : run y0 evs = .ok y)
+    (k : Nat) (status : Status) (newW : List (List Rat)) (o : PickOutcome)
+    (hev : EvOk y (.step k status newW o)) (hs : sysStep y (.step k status newW o) = .ok y') :
+    ∃ job sM pns it, y.jobs[k]? = some job ∧
+      treatOutput (loop y.s).1 job status newW (sortFuel (loop y.s).1) = .ok (sM, pns, it) ∧
+      ∀ (workers tsteps : Nat) (occ : List (List Int)) (ensEng : List (List Nat)) (sR : St),
+        restore (persistD sM) sM.n workers tsteps occ ensEng (fun pn => (sM.wts.lookup pn).getD []) = .ok sR →
+        HistOk ⟨sR, []⟩ evs2 → run ⟨sR, []⟩ evs2 = .ok y3 →
+        InvR y3 ∧ FracWF y3.s ∧ ∀ c,
+          rowsTotal sM.rows c + (rowsTotal y3.s.rows c + colTotal y3.s.frac c)
+            = (idleSteps y0 evs c : Rat) + (idleAt y (.step k status newW o) c : Rat)
+              + (idleSteps ⟨sR, []⟩ evs2 c : Rat) := by
+  have r := run_reach4 evs h0.reach4 hh hr
+  have hrec := reach_recInv h0.ri.fi.init hl0 hr
+  obtain ⟨job, sM, pns, it, hjob, htreat, _, rM, hk⟩ := mid_reach4 r hev hs
+  have hrecM : RecInv ⟨sM, y.jobs.eraseIdx k⟩ :=
+    mid_recInv (Inv.toInvR r.hinv.inv) hrec hs job sM pns it hjob htreat
+  refine ⟨job, sM, pns, it, hjob, htreat, ?_⟩
+  intro workers tsteps occ ensEng sR hres hh2 hr2
+  rw [restore_persistD] at hres
+  obtain ⟨_, b5, bfw, bj, bcol, brows, _, _⟩ :=
+    restart_inflight_is_start_state ⟨sM, y.jobs.eraseIdx k⟩ rM hrecM workers tsteps occ ensEng sR hres
+  obtain ⟨d1, _, d3, _, _, d, _⟩ := conservation_from_inflight ⟨sR, []⟩ y3 evs2 b5 bfw bj hh2 hr2
+  refine ⟨d1, d3, fun c => ?_⟩
+  have e1 := conservation_reachable y0 y evs h0.ri.fi h0.i5 hh hr c
+  have hm := matchableAlong_of_histOk evs y0 h0.i5.inv5 hh
+  obtain ⟨_, hj, _⟩ := run_total evs h0.ri.fi.hinv h0.ri.fi.jinv hr hm
+  obtain ⟨_, _, hstep, _⟩ := sysStep_total _ r.hinv hj hs (matchableAt_of_inv5 r.inv5 hev)
+  have e2 := hstep c
+  unfold total at e2
+  rw [hk.frac, hk.rows] at e2
+  have e3 := d c
+  simp only [brows, rowsTotal_nil, zero_add, bcol c] at e3
+  rw [e3]
+  linarith
+
+/-! ### two workers: stop after the first completed step of `exEvs` (the other worker's job on record), restart -/
+
+/-- the mid-state of the zero-swap completion in `exMid` is `exMidTreated`; its image records the other worker's job: slot 2 (`[1+]`), path 2 -/
+def exInflightS : St :=
+  match restore (persistD exMidTreated) 4 2 10 [[-1, -1]] [[0], [0], [0]]
+      (fun pn => (exMidTreated.wts.lookup pn).getD []) with
+  | .ok s => s
+  | .error _ => exMid.s
+
+/-- the restarted run: worker 0 re-issues the recorded `[1+]` job (the outcome is ignored), worker 1 picks `[0+]`,
+    initiation closes, the re-issued job completes ACCEPTED -/
+def exInflightEvs : List Ev :=
+  [ .start { t := 0, e := 0 }, .start { t := 1, e := 1 }, .initDone,
+    .step 0 .acc [[1, 1, 0]] { t := 2, e := 2 } ]
+
+def exInflightEnd : Sys := match run ⟨exInflightS, []⟩ exInflightEvs with | .ok y => y | .error _ => exMid
+
+example : DiskStart exSys ∧ exSys.s.locked = [] ∧ HistOk exSys (exEvs.take 3) ∧ run exSys (exEvs.take 3) = .ok exMid ∧
+    EvOk exMid (.step 0 .acc [[1], [1, 1, 0]] { t := 0, e := 0, coin := false }) ∧
+    sysStep exMid (.step 0 .acc [[1], [1, 1, 0]] { t := 0, e := 0, coin := false }) = .ok exMidNext ∧
+    (persistD exMidTreated).locked = [([2], [2])] ∧
+    restore (persistD exMidTreated) 4 2 10 [[-1, -1]] [[0], [0], [0]]
+      (fun pn => (exMidTreated.wts.lookup pn).getD []) = .ok exInflightS ∧
+    exInflightS.locked0 = [([2], [2])] ∧
+    HistOk ⟨exInflightS, []⟩ exInflightEvs ∧ run ⟨exInflightS, []⟩ exInflightEvs = .ok exInflightEnd ∧
+    exInflightEnd.jobs.map (·.pnumOld) = [[4], [5]] ∧
+    (List.range 4).map (idleSteps ⟨exInflightS, []⟩ exInflightEvs) = [1, 0, 1, 0] ∧
+    (List.range 3).map (fun c => rowsTotal exMidTreated.rows c
+        + (rowsTotal exInflightEnd.s.rows c + colTotal exInflightEnd.s.frac c)) = [2, 1, 1] :=
+  ⟨exDiskStart, by decide +kernel, histOk_of_B _ _ (by decide +kernel), by decide +kernel,
+   evOk_of_B (by decide +kernel), by decide +kernel, by decide +kernel, by decide +kernel, by decide +kernel,
+   histOk_of_B _ _ (by decide +kernel), by decide +kernel, by decide +kernel, by decide +kernel, by decide +kernel⟩
+
+/-! ## 16. The end-of-run `write_toml` and "rewrite only if changed"
+
+`loop()` calls `write_toml` once more when the step target is reached (`finishDisk`); this is the restart file a
+user continues a finished run from.  `clean_data_file` rewrites the data file only if it dropped a line
+(`cleanRewrites`). -/
+
+/-- no row of the data file of a good disk state belongs to a path active in its restart file -/
+theorem good_no_active_row {Z : DSys} (hg : Good Z) (im : Image) (him : Z.d.img = some im) :
+    ∀ pn ∈ lineKeys Z.d.lines, pn ∉ activeKeys im := by
+  intro pn hpn hact
+  obtain ⟨f1, _, _⟩ := good_disk_facts hg im him
+  unfold lineKeys dataRows at hpn
+  simp only [List.mem_map, List.mem_filterMap] at hpn
+  obtain ⟨x, ⟨l, hl, hle⟩, rfl⟩ := hpn
+  split at hle
+  · rename_i hcond
+    cases hk : l.key with
+    | none => rw [hk] at hle; simp at hle
+    | some q =>
+      rw [hk] at hle
+      simp only [Option.map_some, Option.some.injEq] at hle
+      subst hle
+      rcases f1 l hl with h' | ⟨_, h'⟩
+      · simp [h'] at hcond
+      · exact (h' q hk).2 hact
+  · exact absurd hle (by simp)
+
+/-- **The end-of-run `write_toml` keeps the law, for every reachable disk state.**  `finishDisk` leaves the data
+    file alone; below the step target it does nothing, at the step target the restart file becomes the image of the
+    current sampler state.  Either way, for the restart file `im` on the resulting disk: its step and path
+    counters are the sampler's, data file + live weights of `im` = the count of idle recordings in every ensemble
+    column (one worker: = `im.cstep`), no row belongs to a path active in `im`, and a restart's
+    `clean_data_file` neither drops a line nor rewrites the file. -/
+theorem finishDisk_keeps_law (one : Bool) (z : DSys) (hz : Reachable one z) :
+    (finishDisk z.d z.y.s).lines = z.d.lines ∧
+    (z.y.s.cstep ≥ z.y.s.tsteps → (finishDisk z.d z.y.s).img = some (persistD z.y.s)) ∧
+    (¬ z.y.s.cstep ≥ z.y.s.tsteps → finishDisk z.d z.y.s = z.d) ∧
+    ∀ im, (finishDisk z.d z.y.s).img = some im →
+      im.cstep = z.y.s.cstep ∧ im.trajNum = z.y.s.trajNum ∧
+      (∀ c, c < z.y.s.n - 1 → diskTotal (finishDisk z.d z.y.s).lines im c = (z.cnt.getD c 0 : Rat)) ∧
+      (∀ pn ∈ lineKeys (finishDisk z.d z.y.s).lines, pn ∉ activeKeys im) ∧
+      cleanLines (activeKeys im) (finishDisk z.d z.y.s).lines = (finishDisk z.d z.y.s).lines ∧
+      cleanRewrites (activeKeys im) (finishDisk z.d z.y.s).lines = false ∧
+      (one = true → ∀ c, c < z.y.s.n - 1 → diskTotal (finishDisk z.d z.y.s).lines im c = (im.cstep : Rat)) := by
+  obtain ⟨hg, h1⟩ := reachable_good hz
+  have hF := finish_good hg
+  refine ⟨finishDisk_lines _ _, finishDisk_img_of_done _ _, finishDisk_of_not_done _ _, ?_⟩
+  intro im him
+  have ig := hF.d.img im him
+  obtain ⟨_, _, f3⟩ := good_disk_facts hF im him
+  have hc := clean_noopG hF im him
+  refine ⟨ig.cstep, ig.tn, f3, good_no_active_row hF im him, hc, (cleanRewrites_false_iff _ _).mpr hc, ?_⟩
+  intro ho c hcn
+  rw [f3 c hcn, (h1 ho).2 c hcn, ig.cstep]
+
+/-- **`clean_data_file` rewrites the data file iff it drops a line** (all inputs), and what it keeps is never
+    longer than what it found. -/
+theorem clean_rewrites_iff_dropped (active : List Nat) (lines : List DLine) :
+    (cleanRewrites active lines = true ↔ cleanLines active lines ≠ lines) ∧
+    (cleanRewrites active lines = false ↔ cleanLines active lines = lines) ∧
+    (cleanLines active lines).length ≤ lines.length :=
+  ⟨cleanRewrites_iff active lines, cleanRewrites_false_iff active lines, List.length_filter_le _ _⟩
+
+/-! ### a one-worker run to its step target 3: the restart file of the finished run -/
+
+def exZQ : DSys := match dRun (freshSys exSysQ) exEvsD with | .ok z => z | .error _ => freshSys exSysQ
+
+theorem exReachZQ : Reachable true exZQ :=
+  reachable_of_dRun exEvsD (Reachable.fresh exDiskStartQ (fun _ => ⟨by decide +kernel, by decide +kernel⟩))
+    (histOk_of_B _ _ (by decide +kernel)) (by decide +kernel)
+
+example : Reachable true exZQ ∧ exZQ.y.s.cstep ≥ exZQ.y.s.tsteps ∧
+    (finishDisk exZQ.d exZQ.y.s).img.map (·.cstep) = some 3 ∧
+    (finishDisk exZQ.d exZQ.y.s).img.map (·.active) = some [some 0, some 4, some 2] ∧
+    ((finishDisk exZQ.d exZQ.y.s).img.map (fun im =>
+        (List.range 3).map (fun c => diskTotal (finishDisk exZQ.d exZQ.y.s).lines im c))) = some ([3, 3, 3] : List Rat) ∧
+    -- below the step target nothing is written
+    ¬ exZ.y.s.cstep ≥ exZ.y.s.tsteps ∧ finishDisk exZ.d exZ.y.s = exZ.d ∧
+    -- a stop that left a whole new row behind: the restart's clean-up drops it and rewrites the file
+    cleanRewrites [0, 4, 2] (exZ.d.lines ++ [{ hash := false, term := true, key := some 2 }]) = true ∧
+    cleanLines [0, 4, 2] (exZ.d.lines ++ [{ hash := false, term := true, key := some 2 }]) = exZ.d.lines ∧
+    cleanRewrites [0, 4, 2] exZ.d.lines = false :=
+  ⟨exReachZQ, by decide +kernel, by decide +kernel, by decide +kernel, by decide +kernel, by decide +kernel,
+   by decide +kernel, by decide +kernel, by decide +kernel, by decide +kernel⟩
+
+/-! ## 17. "Record weights" on a malformed fraction table (numpy's shape check)
+
+`Repex.addVec` is `List.zipWith`: on a vector that does not have `n` entries (a hand-edited `[current.frac]`; a
+restart file written for another number of interfaces is refused by `check_config` since 971ccbc) it truncates silently, whereas the code's
+`traj_data[live]["frac"] += P[idx, :]` raises `ValueError` — after crediting the paths earlier in `live_paths()`,
+before anything is written.  The driver runs `treatOutputChecked` (Model/DataFileNp.lean), which mirrors that.
+Every theorem above is about `treatOutput`; these theorems say the two are the same wherever the theorems apply. -/
+
+/-- **No raise ⇒ same state.**  Whenever the checked loop goes through, `recordFrac` returns the same state. -/
+theorem record_checked_no_raise {s s' : St} (h : recordFracChecked s = (s', none)) : recordFrac s = .ok s' :=
+  recordFracChecked_none h
+
+/-- **Well-formed table ⇒ same behaviour, error for error.**  Slot-well-formed state, all vectors of length `n`. -/
+theorem record_checked_eq_wellformed {s : St} (wf : SlotWF s) (hl : ∀ kv ∈ s.frac, kv.2.length = s.n) :
+    (match recordFrac s with
+     | .ok s' => recordFracChecked s = (s', none)
+     | .error e => (recordFracChecked s).2 = some e) :=
+  recordFracChecked_wf wf hl
+
+/-- **`treat_output` with the checked loop = `treatOutput` in every reachable state** (fresh start, any history
+    with outcomes in the weight family, any completing job, any status). -/
+theorem treat_checked_eq_reachable (y0 y y' : Sys) (evs : List Ev) (h0 : FracInit y0) (h5 : Init5 y0)
+    (hh : HistOk y0 evs) (hr : run y0 evs = .ok y)
+    (k : Nat) (status : Status) (newW : List (List Rat)) (o : PickOutcome)
+    (hev : EvOk y (.step k status newW o)) (hs : sysStep y (.step k status newW o) = .ok y') :
+    ∃ job, y.jobs[k]? = some job ∧
+      (treatOutputChecked (loop y.s).1 job status newW (sortFuel (loop y.s).1)).toExcept
+        = treatOutput (loop y.s).1 job status newW (sortFuel (loop y.s).1) := by
+  have hm := matchableAlong_of_histOk evs y0 h5.inv5 hh
+  obtain ⟨hi, _, _⟩ := run_total evs h0.hinv h0.jinv hr hm
+  have hi5 := (run_preserves5 evs h5.inv5 hh hr).1
+  obtain ⟨job, sR, tn, pns, _, hjob, hrec, _, wf, _, _, hl, _⟩ := step_record hi hi5 hev hs
+  refine ⟨job, hjob, treatOutputChecked_eq _ job status newW _ ?_⟩
+  intro s1 tn' pns' h1
+  rw [hrec] at h1
+  simp only [Except.ok.injEq, Prod.mk.injEq] at h1
+  obtain ⟨rfl, _, _⟩ := h1
+  exact ⟨wf, hl⟩
+
+/-- `exRec` with the vector of path 3 cut to two entries (as a malformed restart file would load it) -/
+def exRecBad : St := { exRec with frac := [(3, [0, 1/2]), (4, [0, 0, 1, 0]), (5, [1, 0, 0, 0])] }
+
+/-- the vector of path 4 cut instead: path 3 (earlier in `live_paths()`) is credited before the raise -/
+def exRecBad2 : St := { exRec with frac := [(3, [0, 1/2, 1/2, 0]), (4, [0, 0, 1]), (5, [1, 0, 0, 0])] }
+
+/-- the code raises `ValueError` (nothing credited when the first idle path is the malformed one; partial credit
+    when it is a later one), the unchecked loop truncates and goes on; on the well-formed `exRec` both agree -/
+example : recordFracChecked exRecBad = (exRecBad, some .value) ∧
+    recordFrac exRecBad = .ok { exRecBad with
+      frac := [(3, [0, 1/2 + 2/3]), (4, [0, 1/3, 1 + 2/3, 0]), (5, [1, 0, 0, 0])] } ∧
+    recordFracChecked exRecBad2 = ({ exRecBad2 with
+      frac := [(3, [0, 1/2 + 2/3, 1/2 + 1/3, 0]), (4, [0, 0, 1]), (5, [1, 0, 0, 0])] }, some .value) ∧
+    recordFracChecked exRec = ({ exRec with
+      frac := [(3, [0, 1/2 + 2/3, 1/2 + 1/3, 0]), (4, [0, 1/3, 1 + 2/3, 0]), (5, [1, 0, 0, 0])] }, none) ∧
+    slotOk exRec = true ∧ (∀ kv ∈ exRec.frac, kv.2.length = exRec.n) := by
+  decide +kernel
+
+example : FracInit exSys ∧ Init5 exSys ∧ HistOk exSys (exEvs.take 3) ∧ run exSys (exEvs.take 3) = .ok exMid ∧
+    EvOk exMid (.step 0 .acc [[1], [1, 1, 0]] { t := 0, e := 0, coin := false }) ∧
+    sysStep exMid (.step 0 .acc [[1], [1, 1, 0]] { t := 0, e := 0, coin := false }) = .ok exMidNext :=
+  ⟨ex_fracInit, ex_init5, histOk_of_B _ _ (by decide +kernel), by decide +kernel,
+   evOk_of_B (by decide +kernel), by decide +kernel⟩
 
 end Infretis.C04
